@@ -1,0 +1,207 @@
+//go:build verif
+
+// Contracts for package lexer, read by /verif/govc (comment-only file; no code).
+package lexer
+
+// Representation invariant of the lexer (DESIGN.md 5.1).
+//@ pred LexInv(l *Lexer) = 0 <= l.position && l.position <= l.readPosition && l.readPosition <= slen(l.input)
+//@   && Boundary(l.input, l.position)
+//@   && (l.position < slen(l.input) ==> (l.ch == runeAt(l.input, l.position) && l.readPosition == l.position + sizeAt(l.input, l.position)))
+//@   && (l.position >= slen(l.input) ==> (l.ch == 0 && l.readPosition == l.position))
+//@   && ((l.position < slen(l.input) && l.ch < 128) ==> l.readPosition == l.position + 1)
+//@   && l.lineNumber == LineOf(l.input, l.position)
+//@   && 0 <= LineStart(l.input, l.position) && LineStart(l.input, l.position) <= l.position
+//@   && l.charNumber == l.readPosition - LineStart(l.input, l.position)
+//@   && l.prevCharNumber == l.position - LineStart(l.input, l.position)
+//@   && (l.position < slen(l.input) ==> (l.utf8CharNumber == Runes(l.input, LineStart(l.input, l.position), l.readPosition)
+//@        && l.prevUtf8CharNumber == Runes(l.input, LineStart(l.input, l.position), l.position)
+//@        && l.utf8CharNumber == l.prevUtf8CharNumber + 1))
+
+//@ pred IsBlank(r int) = r == ' ' || r == '\t' || r == '\n' || r == '\r'
+
+// the lexer moved forward over the same input; everything between is on record in the clauses below
+//@ pred Advanced(l *Lexer, p0 int, in0 string, ln0 int) = l.input == in0 && p0 <= l.position && ln0 <= l.lineNumber
+
+// state of a freshly allocated lexer, before the first readChar
+//@ pred LexInit(l *Lexer) = l.position == 0 && l.readPosition == 0 && l.ch == 0 && l.lineNumber == 1 && l.charNumber == 0
+//@   && l.prevCharNumber == 0 && l.utf8CharNumber == 0 && l.prevUtf8CharNumber == 0
+
+//@ func (l *Lexer) readChar
+//@   requires ValidUTF8(l.input) && (LexInv(l) || LexInit(l))
+//@   use LexBase(l.input)
+//@   modifies l.ch, l.position, l.readPosition, l.lineNumber, l.prevCharNumber, l.charNumber, l.prevUtf8CharNumber, l.utf8CharNumber
+//@   use LexStep(l.input, l.position)
+//@   use LexStep(l.input, l.readPosition)
+//@   use ValidAt(l.input, l.readPosition)
+//@   ensures [C19:inv] LexInv(l)
+//@   ensures [C19,C18:step] l.position == old(l.readPosition) && l.input == old(l.input) && l.lineNumber >= old(l.lineNumber) && ((old(LexInv(l)) && old(l.position) < slen(l.input)) ==> l.position > old(l.position))
+//@   ensures [C19:arrive] (old(LexInv(l)) && old(l.position) < slen(l.input)) ==> l.prevUtf8CharNumber == Runes(l.input, LineStart(l.input, l.position), l.position)
+//@   ensures [C19:sameline] old(l.ch) != '\n' ==> (l.lineNumber == old(l.lineNumber) && LineStart(l.input, l.position) == LineStart(l.input, old(l.position)))
+//@   ensures [C19:runes] (old(LexInv(l)) && old(l.position) < slen(l.input)) ==> (Runes(l.input, old(l.position), l.position) == 1 && substr(l.input, old(l.position), l.position) == runeStr(old(l.ch)))
+//@   ensures [C19:ascii] (old(LexInv(l)) && old(l.position) < slen(l.input) && old(l.ch) < 128) ==> l.position == old(l.position) + 1
+//@ end
+
+//@ func (l *Lexer) peekChar
+//@   requires LexInv(l)
+//@   ensures [C19:peek] result == ((l.readPosition < slen(l.input) && runeAt(l.input, l.readPosition) != 65533) ? runeAt(l.input, l.readPosition) : 0)
+//@ end
+
+//@ func (l *Lexer) skipWhitespace
+//@   requires ValidUTF8(l.input) && LexInv(l)
+//@   modifies l.ch, l.position, l.readPosition, l.lineNumber, l.prevCharNumber, l.charNumber, l.prevUtf8CharNumber, l.utf8CharNumber
+//@   ensures [C19:inv] LexInv(l) && Advanced(l, old(l.position), old(l.input), old(l.lineNumber))
+//@   ensures [C19:ws] !IsBlank(l.ch)
+//@   ensures [C19:unmoved] !IsBlank(old(l.ch)) ==> (l.position == old(l.position) && l.prevUtf8CharNumber == old(l.prevUtf8CharNumber) && l.utf8CharNumber == old(l.utf8CharNumber))
+//@   ensures [C19:arrive] l.position > old(l.position) ==> l.prevUtf8CharNumber == Runes(l.input, LineStart(l.input, l.position), l.position)
+//@   loop 1
+//@     invariant LexInv(l) && Advanced(l, old(l.position), old(l.input), old(l.lineNumber)) && ValidUTF8(l.input)
+//@     invariant l.position > old(l.position) ==> l.prevUtf8CharNumber == Runes(l.input, LineStart(l.input, l.position), l.position)
+//@     invariant l.position == old(l.position) ==> (l.prevUtf8CharNumber == old(l.prevUtf8CharNumber) && l.utf8CharNumber == old(l.utf8CharNumber) && l.ch == old(l.ch))
+//@     invariant !IsBlank(old(l.ch)) ==> l.position == old(l.position)
+//@     decreases slen(l.input) - l.position
+//@ end
+
+//@ func (l *Lexer) skipToNextLine
+//@   requires ValidUTF8(l.input) && LexInv(l)
+//@   modifies l.ch, l.position, l.readPosition, l.lineNumber, l.prevCharNumber, l.charNumber, l.prevUtf8CharNumber, l.utf8CharNumber
+//@   ensures [C19:inv] LexInv(l) && Advanced(l, old(l.position), old(l.input), old(l.lineNumber))
+//@   ensures [C18:progress] old(l.position) < slen(l.input) ==> l.position > old(l.position)
+//@   loop 1
+//@     invariant LexInv(l) && Advanced(l, old(l.position), old(l.input), old(l.lineNumber)) && ValidUTF8(l.input)
+//@     decreases slen(l.input) - l.position
+//@ end
+
+//@ func (l *Lexer) skipNewlineWhitespace
+//@   requires ValidUTF8(l.input) && LexInv(l)
+//@   modifies l.ch, l.position, l.readPosition, l.lineNumber, l.prevCharNumber, l.charNumber, l.prevUtf8CharNumber, l.utf8CharNumber
+//@   ensures [C19:inv] LexInv(l) && Advanced(l, old(l.position), old(l.input), old(l.lineNumber))
+//@   ensures [C18:progress] result ==> l.position > old(l.position)
+//@   ensures [C19:unmoved] !result ==> (l.position == old(l.position) && l.ch == old(l.ch))
+//@   loop 1
+//@     invariant LexInv(l) && Advanced(l, old(l.position), old(l.input), old(l.lineNumber)) && ValidUTF8(l.input)
+//@     invariant skipped ==> l.position > old(l.position)
+//@     invariant !skipped ==> (l.position == old(l.position) && l.ch == old(l.ch))
+//@     decreases slen(l.input) - l.position
+//@ end
+
+// A maximal run of identifier / digit / hex characters stays on one line.
+//@ pred SameLineRun(l *Lexer, p0 int, ls0 int, ln0 int) = l.position >= p0 && LineStart(l.input, l.position) == ls0 && l.lineNumber == ln0
+//@   && (l.position > p0 ==> l.prevUtf8CharNumber == Runes(l.input, ls0, l.position))
+
+//@ func (l *Lexer) readIdentifier
+//@   requires ValidUTF8(l.input) && LexInv(l)
+//@   modifies l.ch, l.position, l.readPosition, l.lineNumber, l.prevCharNumber, l.charNumber, l.prevUtf8CharNumber, l.utf8CharNumber
+//@   ensures [C19:inv] LexInv(l) && Advanced(l, old(l.position), old(l.input), old(l.lineNumber))
+//@   ensures [C19:lexeme] result == substr(l.input, old(l.position), l.position)
+//@   ensures [C19:run] SameLineRun(l, old(l.position), LineStart(l.input, old(l.position)), old(l.lineNumber))
+//@   ensures [C19:nonempty] (uIsLetter(old(l.ch)) || old(l.ch) == '_') ==> l.position > old(l.position)
+//@   ensures [C19:unmoved] l.position == old(l.position) ==> (l.ch == old(l.ch) && l.prevUtf8CharNumber == old(l.prevUtf8CharNumber) && l.utf8CharNumber == old(l.utf8CharNumber))
+//@   loop 1
+//@     invariant LexInv(l) && Advanced(l, old(l.position), old(l.input), old(l.lineNumber)) && ValidUTF8(l.input) && start == old(l.position)
+//@     invariant SameLineRun(l, old(l.position), LineStart(l.input, old(l.position)), old(l.lineNumber))
+//@     invariant l.position == old(l.position) ==> (l.ch == old(l.ch) && l.prevUtf8CharNumber == old(l.prevUtf8CharNumber) && l.utf8CharNumber == old(l.utf8CharNumber))
+//@     decreases slen(l.input) - l.position
+//@ end
+
+//@ func (l *Lexer) readNumber
+//@   requires ValidUTF8(l.input) && LexInv(l)
+//@   modifies l.ch, l.position, l.readPosition, l.lineNumber, l.prevCharNumber, l.charNumber, l.prevUtf8CharNumber, l.utf8CharNumber
+//@   ensures [C19:inv] LexInv(l) && Advanced(l, old(l.position), old(l.input), old(l.lineNumber))
+//@   ensures [C19:lexeme] result == substr(l.input, old(l.position), l.position)
+//@   ensures [C19:run] SameLineRun(l, old(l.position), LineStart(l.input, old(l.position)), old(l.lineNumber))
+//@   ensures [C19:nonempty] uIsDigit(old(l.ch)) ==> l.position > old(l.position)
+//@   ensures [C19:unmoved] l.position == old(l.position) ==> (l.ch == old(l.ch) && l.prevUtf8CharNumber == old(l.prevUtf8CharNumber) && l.utf8CharNumber == old(l.utf8CharNumber))
+//@   loop 1
+//@     invariant LexInv(l) && Advanced(l, old(l.position), old(l.input), old(l.lineNumber)) && ValidUTF8(l.input) && start == old(l.position)
+//@     invariant SameLineRun(l, old(l.position), LineStart(l.input, old(l.position)), old(l.lineNumber))
+//@     invariant l.position == old(l.position) ==> (l.ch == old(l.ch) && l.prevUtf8CharNumber == old(l.prevUtf8CharNumber) && l.utf8CharNumber == old(l.utf8CharNumber))
+//@     decreases slen(l.input) - l.position
+//@ end
+
+//@ func (l *Lexer) readHexNumber
+//@   requires ValidUTF8(l.input) && LexInv(l)
+//@   modifies l.ch, l.position, l.readPosition, l.lineNumber, l.prevCharNumber, l.charNumber, l.prevUtf8CharNumber, l.utf8CharNumber
+//@   ensures [C19:inv] LexInv(l) && Advanced(l, old(l.position), old(l.input), old(l.lineNumber))
+//@   ensures [C19:lexeme] result == substr(l.input, old(l.position), l.position)
+//@   ensures [C19:run] SameLineRun(l, old(l.position), LineStart(l.input, old(l.position)), old(l.lineNumber))
+//@   ensures [C19:unmoved] l.position == old(l.position) ==> (l.ch == old(l.ch) && l.prevUtf8CharNumber == old(l.prevUtf8CharNumber) && l.utf8CharNumber == old(l.utf8CharNumber))
+//@   loop 1
+//@     invariant LexInv(l) && Advanced(l, old(l.position), old(l.input), old(l.lineNumber)) && ValidUTF8(l.input) && start == old(l.position)
+//@     invariant SameLineRun(l, old(l.position), LineStart(l.input, old(l.position)), old(l.lineNumber))
+//@     invariant l.position == old(l.position) ==> (l.ch == old(l.ch) && l.prevUtf8CharNumber == old(l.prevUtf8CharNumber) && l.utf8CharNumber == old(l.utf8CharNumber))
+//@     decreases slen(l.input) - l.position
+//@ end
+
+//@ func (l *Lexer) readRaw
+//@   requires ValidUTF8(l.input) && LexInv(l)
+//@   modifies l.ch, l.position, l.readPosition, l.lineNumber, l.prevCharNumber, l.charNumber, l.prevUtf8CharNumber, l.utf8CharNumber
+//@   ensures [C19:inv] LexInv(l) && Advanced(l, old(l.position), old(l.input), old(l.lineNumber))
+//@   ensures [C18:progress] old(l.position) < slen(l.input) ==> l.position > old(l.position)
+//@   loop 1
+//@     invariant LexInv(l) && Advanced(l, old(l.position), old(l.input), old(l.lineNumber)) && ValidUTF8(l.input)
+//@     invariant old(l.position) < slen(l.input) ==> l.position > old(l.position)
+//@     decreases slen(l.input) - l.position
+//@ end
+
+//@ func (l *Lexer) readString
+//@   requires ValidUTF8(l.input) && LexInv(l)
+//@   modifies l.ch, l.position, l.readPosition, l.lineNumber, l.prevCharNumber, l.charNumber, l.prevUtf8CharNumber, l.utf8CharNumber
+//@   ensures [C19:inv] LexInv(l) && Advanced(l, old(l.position), old(l.input), old(l.lineNumber))
+//@   ensures [C18:progress] old(l.ch) == '"' ==> l.position > old(l.position)
+//@   ensures [C19:endline] old(l.ch) == '"' ==> (old(l.lineNumber) <= result1 && result1 <= l.lineNumber)
+//@   loop 1
+//@     invariant LexInv(l) && Advanced(l, old(l.position), old(l.input), old(l.lineNumber)) && ValidUTF8(l.input)
+//@     invariant (old(l.ch) == '"' && l.position == old(l.position)) ==> l.ch == '"'
+//@     invariant l.position > old(l.position) ==> (old(l.lineNumber) <= endLine && endLine <= l.lineNumber)
+//@     decreases slen(l.input) - l.position
+//@   loop 2
+//@     invariant LexInv(l) && Advanced(l, old(l.position), old(l.input), old(l.lineNumber)) && ValidUTF8(l.input)
+//@     invariant l.position > outer(l.position)
+//@     decreases slen(l.input) - l.position
+//@ end
+
+// Position of a token whose first byte is at offset s.
+//@ pred TokStart(l *Lexer, tok token.Token, s int) = tok.LineNumber == LineOf(l.input, s)
+//@   && tok.StartCharIndex == s - LineStart(l.input, s)
+//@   && tok.StartUtf8CharIndex == Runes(l.input, LineStart(l.input, s), s)
+// A single-line token occupying [s, e).
+//@ pred TokSpan(l *Lexer, tok token.Token, s int, e int) = tok.EndLineNumber == tok.LineNumber
+//@   && tok.EndCharIndex == tok.StartCharIndex + (e - s)
+//@   && tok.EndUtf8CharIndex == tok.StartUtf8CharIndex + Runes(l.input, s, e)
+//@   && tok.Literal == substr(l.input, s, e)
+
+//@ func (l *Lexer) readStringToken
+//@   requires ValidUTF8(l.input) && LexInv(l) && l.ch == '"'
+//@   modifies l.ch, l.position, l.readPosition, l.lineNumber, l.prevCharNumber, l.charNumber, l.prevUtf8CharNumber, l.utf8CharNumber
+//@   ensures [C19:inv] LexInv(l) && Advanced(l, old(l.position), old(l.input), old(l.lineNumber))
+//@   ensures [C19:pos-string] TokStart(l, result, old(l.position)) && result.Type == token.STRING && result.LineNumber <= result.EndLineNumber
+//@   ensures [C18:progress] l.position > old(l.position)
+//@ end
+
+//@ func New
+//@   requires ValidUTF8(input)
+//@   use LexBase(input)
+//@   ensures [C19:init] result != nil && LexInv(result) && result.input == input && result.position == 0 && len(result.queuedTokens) == 0
+//@ end
+
+//@ func (l *Lexer) NextToken
+//@   requires ValidUTF8(l.input) && LexInv(l)
+//@   modifies l.ch, l.position, l.readPosition, l.lineNumber, l.prevCharNumber, l.charNumber, l.prevUtf8CharNumber, l.utf8CharNumber, l.queuedTokens
+//@   useret SubstrCat(l.input, l.position - 2, l.position - 1, l.position)
+//@   useret SubstrCat(l.input, l.position - slen(result.Literal), l.position - slen(result.Literal) + 1, l.position)
+//@   useret SubstrCat(l.input, l.position - slen(result.Literal), l.position - slen(result.Literal) + 1, l.position - slen(result.Literal) + 2)
+//@   useret SubstrCat(l.input, l.position - slen(result.Literal), l.position - slen(result.Literal) + 2, l.position)
+//@   useret RunesAdd(l.input, LineStart(l.input, l.position), l.position - slen(result.Literal), l.position)
+//@   ensures [C19:inv] LexInv(l) && Advanced(l, old(l.position), old(l.input), old(l.lineNumber))
+//@   ensures [C19:queue] len(old(l.queuedTokens)) > 0 ==> (result == old(l.queuedTokens)[0] && l.position == old(l.position) && len(l.queuedTokens) == len(old(l.queuedTokens)) - 1)
+//@   ensures [C19:pos] (len(old(l.queuedTokens)) == 0 && result.Type != token.STRING && result.Type != token.RAWSTRING && result.Type != token.STRINGTYPE && result.Type != token.EOF && result.Type != token.ILLEGAL)
+//@        ==> (TokStart(l, result, l.position - slen(result.Literal)) && TokSpan(l, result, l.position - slen(result.Literal), l.position) && slen(result.Literal) > 0)
+//@   ensures [C19:pos-illegal] (len(old(l.queuedTokens)) == 0 && result.Type == token.ILLEGAL)
+//@        ==> (TokStart(l, result, l.position - slen(result.Literal)) && TokSpan(l, result, l.position - slen(result.Literal), l.position) && slen(result.Literal) > 0)
+//@   ensures [C19:pos-eof] (len(old(l.queuedTokens)) == 0 && result.Type == token.EOF) ==> (result.EndLineNumber == result.LineNumber && result.EndCharIndex == result.StartCharIndex && result.Literal == "" && result.LineNumber <= l.lineNumber)
+//@   ensures [C18:progress] (len(old(l.queuedTokens)) == 0 && result.Type != token.EOF) ==> l.position > old(l.position)
+//@   ensures [C18:eof-absorbing] (len(old(l.queuedTokens)) == 0 && old(l.position) >= slen(l.input)) ==> (result.Type == token.EOF && l.position == old(l.position))
+//@   loop 1
+//@     invariant LexInv(l) && Advanced(l, old(l.position), old(l.input), old(l.lineNumber)) && ValidUTF8(l.input) && !IsBlank(l.ch) && len(old(l.queuedTokens)) == 0 && l.queuedTokens == old(l.queuedTokens)
+//@     decreases slen(l.input) - l.position
+//@ end
